@@ -11,8 +11,7 @@ FAMS = [f for f in C.OPEN_FAMILIES + C.CLOSED_FAMILIES]
 
 
 def tree_params(rng, algo):
-    """documented ranges, restricted to the band c1*delta <= 1/2 in which the published width is unambiguous, and
-    biased towards settings whose thresholds bind and whose trees get deep"""
+    """documented ranges, biased towards settings whose thresholds bind and whose trees get deep"""
     for _ in range(100):
         nu = float(10 ** rng.uniform(-1.3, 1.3))
         rho = float(rng.uniform(0.15, 0.95))
@@ -20,12 +19,12 @@ def tree_params(rng, algo):
         if algo == "T_HOO":
             return P
         P["c"] = float(10 ** rng.uniform(-2.3, 0.5))
-        P["delta"] = float(10 ** rng.uniform(-6, -0.05))
+        P["delta"] = float(10 ** rng.uniform(-6, -0.05)) if rng.random() < 0.85 else float(rng.uniform(0.55, 0.99))
         if algo == "VHCT":
             P["bound"] = float(10 ** rng.uniform(-2, 1.5))
-        if (rho / (3 * nu)) ** 0.125 * P["delta"] <= 0.5:
-            return P
-    raise RuntimeError("no parameters in band")
+        # (c1*delta > 1/2 is allowed: there only the rounds with t+ = 1 (t+ <= 2 if c1*delta > 1) are not judged)
+        return P
+    raise RuntimeError("unreachable")
 
 
 def tree_case(rng, tier, algo=None):
